@@ -152,6 +152,23 @@ def check(case):
                 raise Violation(["set_many-failed"], "set_many reported %r; %s" % (failed, desc))
             cmds = new_cmds()
             _check_multi(cmds, keys[half:], wire, owner, "set_many", desc)
+        # a set_many of which the servers refuse some items (NOT_STORED): the merged answer names exactly those keys, whichever
+        # server each lives on
+        if len(keys) >= 2 and case.get("refuse_every"):
+            step_ = case["refuse_every"]
+            refused = [k for i, k in enumerate(keys) if i % step_ == 0]
+            for k in refused:
+                srv_of[owner(k)].refuse[wire(k)] = "not-stored"
+            failed = call(hc.set_many, {k: vals[i] for i, k in enumerate(keys)}, noreply=False)
+            for n in names:
+                srv_of[n].refuse.clear()
+            multi_calls += 1
+            want_failed = sorted(repr(inner(k)) for k in refused)
+            if not isinstance(failed, list) or sorted(repr(x) for x in failed) != want_failed:
+                raise Violation(["set_many-failed-list"], "set_many returned %r as the keys that were not stored; the servers refused exactly %r (living on %r); %s"
+                                % (failed, [inner(k) for k in refused], sorted({owner(k) for k in refused}), desc))
+            cmds = new_cmds()
+            _check_multi(cmds, keys, wire, owner, "set_many", desc)
         # where the data lives
         for i, k in enumerate(keys):
             own = owner(k)
@@ -361,7 +378,7 @@ def case_strategy(tier):
         ["incr", "decr", "touch", "gat", "gats", "append", "prepend", "replace", "add", "cas", "delete", "get"])}), max_size=12)
     dups = st.lists(st.tuples(st.sampled_from(["dup\x7fkey", "d\x7f2", "\x7fx"]), st.lists(st.sampled_from(["tenant-a", "tenant-b", "sk3", "sk4", "zz"]), min_size=2, max_size=4, unique=True)).map(list),
                     max_size=2)
-    return st.fixed_dictionaries({"addrs": servers, "pooling": st.booleans(), "prefix": st.sampled_from([b"", b"", b"p:", b"p:", b"\xffns/"]), "nest": st.lists(st.integers(0, 60), max_size=3),
+    return st.fixed_dictionaries({"addrs": servers, "pooling": st.booleans(), "prefix": st.sampled_from([b"", b"", b"p:", b"p:", b"\xffns/"]), "nest": st.lists(st.integers(0, 60), max_size=3), "refuse_every": st.sampled_from([None, 1, 2, 3, 5]),
                                   "keys": keys2, "script": script, "dups": dups, "spell": st.one_of(st.none(), st.lists(st.integers(0, 4), min_size=1, max_size=5)),
                                   "subclass": st.sampled_from([None, None, "namespace"]),
                                   "coll": st.sampled_from(["list", "list", "tuple", "iter", "generator", "map", "dictview", "wrapper"])})
@@ -375,7 +392,7 @@ def grid_cases(tier, seed):
             keys = [k.encode() if i % 3 == 0 else k for i, k in enumerate(keys)]
             keys = [(("sk%d" % (i % 4)) if i % 15 else "", k) if i % 5 == 0 else k for i, k in enumerate(keys)]
             yield {"addrs": SERVER_POOL[:n - 1] + [SERVER_POOL[-1]], "pooling": pooling, "prefix": b"g:" if n % 2 else b"",
-                   "keys": keys, "nest": [3, 11, 22, 40], "script": [{"i": i, "op": op} for i, op in enumerate(
+                   "keys": keys, "nest": [3, 11, 22, 40], "refuse_every": (None, 2, 3, 7, 1)[n % 5], "script": [{"i": i, "op": op} for i, op in enumerate(
                        ["incr", "touch", "gat", "append", "cas", "delete", "add", "decr", "gats", "prepend", "replace", "get"])],
                    "dups": [["dup\x7fkey", ["tenant-a", "tenant-b", "sk3", "sk4"]], ["d\x7f2", ["a", "b", "c", "d", "e"]]], "coll": coll,
                    "spell": None if coll == "list" else [n + pooling, 3, 1, 4, 2], "subclass": "namespace" if coll in ("list", "generator") and n > 1 else None}
